@@ -124,13 +124,14 @@ impl Scenario for C05 {
     }
 
     fn gen_plan(&self, r: &mut Rng, _tier: Tier, _index: u64) -> Value {
-        let kind = match r.below(10) {
+        let kind = match r.below(12) {
             0 => "exhaustive",
             1 | 2 | 3 => "fault",
             4 | 5 => "nodeloop",
+            6 => "handover",
             _ => "stream",
         };
-        let handshake = kind != "nodeloop" && r.chance(1, 2);
+        let handshake = kind != "nodeloop" && kind != "handover" && r.chance(1, 2);
         let n = match kind {
             "exhaustive" => r.range(1, 3) as usize,
             _ => r.range(1, 8) as usize,
@@ -159,7 +160,7 @@ impl Scenario for C05 {
                 }
             }
         }
-        if kind == "nodeloop" {
+        if kind == "nodeloop" || kind == "handover" {
             // lengths here are payload binary sizes
             p.lens = (0..n).map(|_| *r.pick(&[0u32, 0, 1, 10, 300, if fine { 3000 } else { 70_000 }])).collect();
         }
@@ -193,6 +194,7 @@ impl Scenario for C05 {
                 "exhaustive" => exhaustive(&w, &p).await,
                 "fault" => fault(&w, &p).await,
                 "nodeloop" => nodeloop(&w, &p).await,
+                "handover" => handover(&w, &p).await,
                 _ => stream(&w, &p).await,
             }
         });
@@ -201,12 +203,12 @@ impl Scenario for C05 {
 
     fn info(&self) -> Info {
         Info {
-            rule: "one run = one seeded plan (message lengths in both framing modes, writer/reader/feeder behaviour, cut policy, pipe capacity, optional fault) + one schedule tape; kinds: stream (real framer -> simulated socket -> real deframer, optionally through FramedTransport), exhaustive (every one of the 2^(n-1) chunkings of a short stream, counted in counters.c05.chunkings_enumerated), fault (EOF/reset at a stream offset, declared length above/at the cap), nodeloop (Connection::receive_message_from_read_half). Non-trivial = anything but whole-buffer delivery; distinct = distinct (schedule signature, event-log digest).",
+            rule: "one run = one seeded plan (message lengths in both framing modes, writer/reader/feeder behaviour, cut policy, pipe capacity, optional fault) + one schedule tape; kinds: handover (2-byte-prefixed frames read through FramedTransport, then take_read_half and 4-byte-prefixed frames through receive_message_from_read_half, the stream possibly coalesced across the switch), stream (real framer -> simulated socket -> real deframer, optionally through FramedTransport), exhaustive (every one of the 2^(n-1) chunkings of a short stream, counted in counters.c05.chunkings_enumerated), fault (EOF/reset at a stream offset, declared length above/at the cap), nodeloop (Connection::receive_message_from_read_half). Non-trivial = anything but whole-buffer delivery; distinct = distinct (schedule signature, event-log digest).",
             components_real: &["edp_client::framing::{MessageFramer,MessageDeframer}", "edp_client::transport::FramedTransport", "edp_client::Connection::receive_message_from_read_half", "tokio timers (paused clock)", "erltf decoder (nodeloop)"],
             components_stubbed: &["TCP socket (SimNet pipe)", "peer (byte feeder / collector)"],
             assumptions: &["TCP semantics: bytes arrive in order, unmodified, until close/reset", "allocation size measured per thread by a counting global allocator"],
             fault_prefixes: &["fault.", "net."],
-            expected_probes: &["probe.c05.eof_in_prefix", "probe.c05.eof_in_body", "probe.c05.eof_between_frames", "probe.c05.overcap_refused", "probe.c05.zero_len_frame", "probe.c05.len_65536"],
+            expected_probes: &["probe.c05.eof_in_prefix", "probe.c05.eof_in_body", "probe.c05.eof_between_frames", "probe.c05.overcap_refused", "probe.c05.zero_len_frame", "probe.c05.len_65536", "probe.c05.handover_coalesced"],
         }
     }
 }
@@ -583,4 +585,79 @@ async fn nodeloop(w: &Arc<World>, p: &Plan) {
     let (we, _) = tokio::join!(feeder, reader);
     drop(we);
     w.ev("N done");
+}
+
+
+/// What a node does with a fresh connection: a few handshake-mode frames through
+/// FramedTransport::read, then the read half is taken and distribution frames are read with
+/// receive_message_from_read_half. Nothing may be lost at the switch however the bytes coalesce.
+async fn handover(w: &Arc<World>, p: &Plan) {
+    use crate::conv::to_val;
+    use crate::wire::Val;
+    let mut r = Rng::new(p.fill_seed);
+    let n_hs = r.range(1, 3) as usize;
+    let hs: Vec<Vec<u8>> = (0..n_hs).map(|i| msg_bytes(p.fill_seed, 100 + i, r.range(1, 40) as u32)).collect();
+    let mut stream = Vec::new();
+    for h in &hs {
+        stream.extend_from_slice(&wire::frame2(h));
+    }
+    let mut expect: Vec<(Val, Val)> = Vec::new();
+    for (i, l) in p.lens.iter().enumerate() {
+        if r.chance(1, 4) {
+            stream.extend_from_slice(&wire::frame4(&[]));
+        }
+        let ctl = Val::tuple(vec![Val::int(2), Val::atom(""), wire::gen_pid(&mut r, Some("sut@host"))]);
+        let msg = Val::tuple(vec![Val::int(i as i128), Val::Bin(r.bytes((*l).min(3000) as usize))]);
+        stream.extend_from_slice(&wire::frame4(&wire::pass_through(&ctl, Some(&msg))));
+        expect.push((ctl, msg));
+    }
+    if p.cut_every == 0 {
+        w.stat("probe.c05.handover_coalesced");
+    }
+    let (fwe, fre, _ctl) = pipe(w, p.cap as usize, p.feeder.clone(), p.reader.clone(), "H");
+    let w2 = w.clone();
+    let feeder = async move {
+        let we = feed(&w2, fwe, stream, p.cut_every, p.gap_ms).await;
+        drop(we);
+    };
+    let w3 = w.clone();
+    let reader = async move {
+        let (dummy_w, _dr, _c) = pipe(&w3, 0, EndCfg::default(), EndCfg::default(), "dummy");
+        let s = edp_client::verif::TcpStream::from_parts(Box::new(fre), Box::new(dummy_w));
+        let mut t = edp_client::transport::FramedTransport::new(Duration::from_secs(600));
+        t.connect(s);
+        for (i, h) in hs.iter().enumerate() {
+            match t.read().await {
+                Ok(b) if &b == h => {}
+                other => {
+                    w3.violation("frame-mismatch", format!("handover: handshake-mode frame {} read as {:?}", i, other.map(|b| b.len()).map_err(|e| e.to_string())));
+                    return;
+                }
+            }
+        }
+        t.set_frame_mode(FrameMode::Distribution);
+        let Some(mut half) = t.take_read_half() else {
+            w3.violation("frame-error", "handover: take_read_half returned None".to_string());
+            return;
+        };
+        for (i, (ctl, msg)) in expect.iter().enumerate() {
+            match edp_client::Connection::receive_message_from_read_half(&mut half, Duration::from_secs(600)).await {
+                Ok((c, m)) => {
+                    if &to_val(&c.to_term()) != ctl || m.as_ref().map(to_val).as_ref() != Some(msg) {
+                        w3.violation("frame-mismatch", format!("handover: distribution frame {} after the switch came back different (a frame was lost or altered)", i));
+                        return;
+                    }
+                }
+                Err(e) => {
+                    w3.violation("frame-error", format!("handover: distribution frame {} after the switch: {}", i, e));
+                    return;
+                }
+            }
+        }
+        if edp_client::Connection::receive_message_from_read_half(&mut half, Duration::from_secs(600)).await.is_ok() {
+            w3.violation("eof-as-frame", "handover: read past the end returned Ok".to_string());
+        }
+    };
+    tokio::join!(feeder, reader);
+    w.ev("H done");
 }
